@@ -200,6 +200,17 @@ func exploreGeneric(runOnce func(rt.Strategy) *rt.Controller, bound, cap int, vi
 					if k == rp.Took[step] {
 						continue
 					}
+					if ch.Sleep { // fairness: a goroutine that sleeps in a poll loop is not resumed while another one can run
+						other := false
+						for _, oc := range en {
+							if !oc.Sleep {
+								other = true
+							}
+						}
+						if other {
+							continue
+						}
+					}
 					cost := 0
 					if prevEnabled && ch.Tid != prev {
 						cost = 1
